@@ -194,9 +194,15 @@ impl<'a> IrEmitter<'a> {
                     }
                 }
 
-                // `(n) as f64 < x` does not parse in Rust (`f64 <` starts generic arguments): group the cast.
-                if matches!(op, BinOp::Lt | BinOp::Le) && matches!(plan.lhs_conv, NumericConversion::ToFloat) {
-                    return Ok(quote! { (#l) #op_tokens #r });
+                // `… as f64 < x` does not parse in Rust (`f64 <` starts generic arguments): when the text of the left
+                // operand ends in a cast (`(n) as f64`, `x * (b) as f64`, `xs.len() as i64`), group it.
+                if matches!(op, BinOp::Lt | BinOp::Le) {
+                    let toks: Vec<proc_macro2::TokenTree> = l.clone().into_iter().collect();
+                    let ends_in_cast = toks.len() >= 2
+                        && matches!(&toks[toks.len() - 2], proc_macro2::TokenTree::Ident(i) if i == "as");
+                    if ends_in_cast {
+                        return Ok(quote! { (#l) #op_tokens #r });
+                    }
                 }
 
                 Ok(quote! { #l #op_tokens #r })
